@@ -146,6 +146,15 @@ def _check_unary(Bitset, bu, mon, v, n, acc, full=True):
         ab = Bitset(raw, n)
         mon.eq("ctor-bytes", (ab.value, len(ab)), (v, n), case)
         mon.eq("bytes", bytes(a), raw, case)
+        # the byte string may carry redundant leading zero bytes, or be shorter than ceil(n/8) when the value is small:
+        # value, length and every conversion are those of the (value, length) pair, not of the spelling
+        for spelling, tag in ((b"\x00" * (1 + (v + n) % 3) + raw, "padded"),
+                              (v.to_bytes((v.bit_length() + 7) // 8, "big"), "minimal")):
+            if spelling != raw:
+                az = Bitset(spelling, n)
+                mon.eq("ctor-bytes-" + tag, (az.value, len(az), bytes(az), int(az), str(az)),
+                       (v, n, raw, v, "".join("1" if b else "0" for b in model)), case)
+                mon.eq("ctor-bytes-" + tag + ".eq", az == a and not (az != a), True, case)
         # too wide for a shorter length is refused
         if v.bit_length() > 1:
             mon.raises("ctor-too-wide", lambda: Bitset(v, v.bit_length() - 1), case)
